@@ -246,6 +246,7 @@ func main() {
 	runAll("addr", 64, genAddr, thorough, bounds)
 	runAll("segwit_matrix", 2048, genSegwitMatrix, thorough, bounds)
 	runAll("reject", 2048, genReject, thorough, bounds)
+	runAll("mixed_case", 256, genMixedCase, thorough, bounds)
 	runAll("wif", 1, genWIF, thorough, bounds)
 	runAll("bip32", 1, genBIP32, thorough, bounds)
 	runAll("taproot", 1, genTaproot, thorough, bounds)
